@@ -123,8 +123,8 @@ CHECKS.update({
         '(iff at levels 2-3), full regular-vine property for centre and direct vines and for regular vines up to the default truncation 3, a proved-sound executable validator, plus limits found by the proofs '
         '(escape branch diverges, NaN breaks greediness). Tie: the real Tree classes are driven with synthetic tau matrices (exhaustive rank orderings for d<=4 in thorough) with numpy/set orders replayed, and real '
         'VineCopula.fit outputs are replayed and validated by vm_compute; every edge copula is what select_copula returned and admissible.',
-   note=TB + 'Model.Vine is hand-written except its edge kernel (check_constraint, identify_eds_ing, is_adjacent, sort_edge, get_child_edge, get_constraints: generated from the AST by tools/vf/vinegen.py and proved equal, C16_bridge_*; denotations of Python sets in coq/Lib/PySet.v) (correspondence); numpy argsort tie order and Python set order are replayed as recorded data; general proximity beyond tree 3 and no-pair-twice for regular vines are only validated per run, not proved.',
-   technique='Coq proof over hand-written graph-construction model; replayed vm_compute correspondence + proved-sound validator on implementation output; edge kernel generated from the AST with bridge theorems',
+   note=TB + 'Model.Vine is tied to the source by proof for its edge kernel (check_constraint, identify_eds_ing, is_adjacent, sort_edge, get_child_edge, get_constraints: tools/vf/vinegen.py, C16_bridge_*, coq/Lib/PySet.v) and for the CONSTRUCTION of centre and direct vines (_sort_tau_by_y, get_anchor, Center/Direct _build_first_tree / _build_kth_tree, Tree.fit, get_tree, train_vine, the tree-count bound of VineCopula.fit: tools/vf/vinebuildgen.py, coq/Lib/PyMat.v, Props/C16_build.v: C16_bridge_sort_tau_by_y .. C16_bridge_vine_fit, for all inputs); the Prim loops of RegularTree stay hand-written (replay correspondence) unless Props/C16_regular.v is present; numpy argsort tie order and Python set order are replayed as recorded data; general proximity beyond tree 3 and no-pair-twice for regular vines are only validated per run, not proved.',
+   technique='Coq proof over a graph-construction model; edge kernel and the centre/direct construction incl. train_vine generated from the AST on every run and proved equal to the model (bridge theorems); replayed vm_compute correspondence + proved-sound validator on implementation output',
    ref='DESIGN.md section 7, C16'),
 })
 CHECKS.update({
@@ -143,8 +143,8 @@ CHECKS.update({
         '(full for every family except GaussianKDE whose cached sample size refutes it, with witness), every query and sample of an unfitted model raises NotFittedError and touches no generator (full for the bivariate classes since the F23 fix; vines since F30), multivariate validation leaves the state unchanged, get_instance returns a fresh configured object, '
         'definition-before-use of np.empty cells in vines (refuted with witness); AST-generated facts (store_args classes, validated fits, check_fit-first methods, guard shapes, fit writes) decided by vm_compute. '
         'Tie: random and scripted fit/query histories on the real classes vs vm_compute of the machine over captured oracle tables; refit-vs-fresh and misuse oracles on every class incl. vines.',
-   note=TB + 'Model.Lifecycle is hand-written (correspondence) except the control skeleton of Univariate/ScipyModel (check_fit, constant handling, ScipyModel.fit, _set_params, the five queries, to_dict/from_dict), which tools/vf/unictlgen.py generates from the AST and Props/C19.v proves equal to it; scipy fits/optimisers are oracle tables captured per run; datasets are abstracted to (identity, constant?, range, size).',
-   technique='Coq induction over fit histories on hand-written state machines; control skeleton of the univariate base classes generated from the AST with bridge theorems (C19_bridge_*); AST facts; history correspondence',
+   note=TB + 'Model.Lifecycle is tied to the source by proof, layer by layer, each generated from the AST on every run and proved equal to the model for all states and inputs: the control skeleton of Univariate/ScipyModel (unictlgen.py, C19_bridge_*), the family hooks of the eight classes, GaussianKDE._get_model/_set_params/pdf/logpdf/sample and the selecting wrapper (uniwrapgen.py, C19_bridge2_*), GaussianMultivariate / Multivariate fit, queries, to_dict/from_dict (gmctlgen.py, coq/Lib/PyGM.v, C19_bridge_gm_*), copulas/utils.py get_instance / get_qualified_name / store_args / check_valid_values (utilsgen.py, C19u_bridge_*), the Bivariate constructor / queries / serialisation (bivlifegen.py, coq/Lib/PyBivLife.v, C14_bridge_*); nine modelling errors of the hand-written model were found by bridges that did not go through and corrected; still hand-written (history correspondence): GaussianKDE.cumulative_distribution / percent_point / _get_bounds, the _constant_* methods, the constructors; scipy fits/optimisers are oracle tables captured per run; datasets are abstracted to (identity, constant?, range, size).',
+   technique='Coq induction over fit histories on life-cycle state machines; the control skeletons of the univariate, wrapper, Gaussian-multivariate and bivariate classes and of copulas/utils.py generated from the AST with bridge theorems (C19_bridge_*, C19_bridge2_*, C19_bridge_gm_*, C19u_bridge_*, C14_bridge_*); AST facts; history correspondence',
    ref='DESIGN.md section 7, C19'),
 })
 CHECKS.update({
@@ -168,8 +168,8 @@ CHECKS.update({
         'provenance F(L|D), F(R|D) proved for trees 1-2 of every vine, for every centre vine and for all hereditarily-good edges, REFUTED with witnesses from tree 3 on for direct/regular vines; likelihood = sum of log pair densities and a function of (model,u) when every read is defined (def-before-use refuted in the bad case); '
         'the sampler assigns every variable exactly once (DFS over a connected tree), sample shape, two-column reduction with the documented top-1% collapse, clipping strictly inside (0,1) with generated constants. '
         'PARTIAL: reproduction of marginals/tau within sampling error is statistical (search only).',
-   note=TB + 'Model.VineData is hand-written except the selection rule of get_conditional_uni (generated, C17_bridge_get_conditional_uni) (correspondence by content-tagged arrays on the real classes); select_copula and h are symbolic oracles.',
-   technique='Coq proof over hand-written symbolic data-flow model; tag-based vm_compute correspondence; generated clip constants and generated get_conditional_uni with bridges',
+   note=TB + 'Model.VineData is tied to the source by proof for get_conditional_uni (vinegen.py, C17_bridge_get_conditional_uni), Tree.prepare_next_tree, Edge / Tree / VineCopula.get_likelihood and the two inner loops of _sample_row (tools/vf/vinedatagen.py, coq/Lib/PyCols.v, Props/C17_data.v: C17_bridge_prepare_next_tree, _Edge_get_likelihood, _Tree_get_likelihood, _VineCopula_get_likelihood, _sample_find_edge, _sample_level_step; the F10b reads of unwritten cells are theorems about the GENERATED likelihood); the outer loop of _sample_row and VineCopula.sample stay hand-written unless Props/C17_sample.v is present (correspondence by content-tagged arrays on the real classes); select_copula and h are symbolic oracles.',
+   technique='Coq proof over a symbolic data-flow model; prepare_next_tree, the likelihood recursion and the inner sampler loops generated from the AST and proved equal to the model (bridge theorems); tag-based vm_compute correspondence; generated clip constants',
    ref='DESIGN.md section 7, C17'),
 })
 CHECKS.update({
@@ -178,8 +178,8 @@ CHECKS.update({
         'bivariate copulas and GaussianMultivariate, idempotence under n round trips (induction), type dispatch of the generic entry points (incl. subclass entry points, and Multivariate.from_dict on vine dicts since the F38 fix), JSON-safety of univariate/bivariate/Gaussian dicts and non-safety of vine dicts (Python set under D), '
         'vine/tree/edge round trip with re-linking of previous_tree and parents; refutations with witnesses for the open defects (KDE options, StudentT constant, nested KDE dataset, std underflow, independence dispatch). AST-generated key sets (emitted/consumed keys per class) decided by vm_compute. '
         'Tie: real round trips (dict, JSON text, pickle/JSON files, repeated 1..3 times) checked inside Coq against the model on exact rationals; bitwise behaviour oracles on the real classes.',
-   note=TB + 'pickle/json are oracles (deep copy incl. instance overrides / identity on JSON-able values); large vine payload arrays enter the model as injective tokens and are compared bitwise in the harness.',
-   technique='Coq induction over round-trip counts on hand-written serialisation models; AST key facts; kernel-checked dict correspondence',
+   note=TB + 'the Bivariate side of the model (CopulaTypes, __new__/__init__/subclasses, to_dict, from_dict, save/load, the ten queries of the five classes) is generated from the AST by tools/vf/bivlifegen.py and proved equal to Model.Lifecycle (Props/C14_biv.v: C14_bridge_*; connecting lemmas to the C10 model BivCtl); the univariate / Gaussian-multivariate to_dict / from_dict are generated and bridged in C19 (C19_bridge_to_dict / _from_dict, C19_bridge_gm_to_dict / _from_dict); pickle/json are oracles (deep copy incl. instance overrides / identity on JSON-able values); large vine payload arrays enter the model as injective tokens and are compared bitwise in the harness.',
+   technique='Coq induction over round-trip counts on serialisation models; bivariate constructor / serialisation / query skeleton generated from the AST with bridge theorems (C14_bridge_*); AST key facts; kernel-checked dict correspondence',
    ref='DESIGN.md section 7, C14'),
 })
 NOT_YET = {}
